@@ -118,6 +118,42 @@ static int op_pfeq(toks_t *t)
     }
     tj3Destroy(hd); free(buf);
   }
+  /* cropped decode (odd top row, iMCU-aligned left edge, fast or fancy upsampling) into every layout */
+  if (!bad && !ll && P <= 12 && w > 1 && h > 3) {
+    int mcuw = tjMCUWidth[ss], cx = (w > mcuw + 2) ? mcuw : 0, cy = (seed & 1) ? 1 : 3, cw = w - cx, ch = h - cy;
+    unsigned short *cref = NULL;
+    for (k = 0; k < 10 && !bad; k++) {
+      int pf = pfs[k], ps = tjPixelSize[pf], pitch = cw * ps, rc;
+      size_t n = (size_t)pitch * ch;
+      unsigned short *buf = (unsigned short *)malloc(n * 2 + 2);
+      tjhandle hd = tj3Init(TJINIT_DECOMPRESS);
+      tjregion reg; reg.x = cx; reg.y = cy; reg.w = cw; reg.h = ch;
+      for (i = 0; i < (int)n; i++) buf[i] = 0x0A5A & maxv;
+      tj3Set(hd, TJPARAM_FASTUPSAMPLE, fu); tj3Set(hd, TJPARAM_FASTDCT, fd);
+      if (tj3DecompressHeader(hd, ref, refsize) < 0 || tj3SetCroppingRegion(hd, reg) < 0) { tj3Destroy(hd); free(buf); break; }
+      if (P <= 8) { unsigned char *b8 = (unsigned char *)malloc(n); memset(b8, 0x5A, n); rc = tj3Decompress8(hd, ref, refsize, b8, pitch, pf); for (i = 0; i < (int)n; i++) buf[i] = b8[i]; free(b8); }
+      else rc = tj3Decompress12(hd, ref, refsize, (short *)buf, pitch, pf);
+      if (rc < 0) { bad = 1; snprintf(why, sizeof(why), "cropped decompress pf=%d: %s", pf, tj3GetErrorStr(hd)); }
+      else {
+        if (!cref) {
+          cref = (unsigned short *)malloc((size_t)cw * ch * 3 * 2);
+          for (y = 0; y < ch; y++) for (x = 0; x < cw; x++) {
+            unsigned short *px = buf + (size_t)y * pitch + x * ps;
+            cref[(y * cw + x) * 3] = px[tjRedOffset[pf]]; cref[(y * cw + x) * 3 + 1] = px[tjGreenOffset[pf]]; cref[(y * cw + x) * 3 + 2] = px[tjBlueOffset[pf]];
+          }
+        }
+        for (y = 0; y < ch && !bad; y++) for (x = 0; x < cw && !bad; x++) {
+          unsigned short *px = buf + (size_t)y * pitch + x * ps;
+          if (px[tjRedOffset[pf]] != cref[(y * cw + x) * 3] || px[tjGreenOffset[pf]] != cref[(y * cw + x) * 3 + 1] || px[tjBlueOffset[pf]] != cref[(y * cw + x) * 3 + 2]) {
+            bad = 1; snprintf(why, sizeof(why), "cropped decompress (region %d,%d %dx%d) to pf=%d: pixel (%d,%d) differs from the TJPF_RGB decode", cx, cy, cw, ch, pf, x, y);
+          }
+          if (!bad && tjAlphaOffset[pf] >= 0 && px[tjAlphaOffset[pf]] != amax) { bad = 1; snprintf(why, sizeof(why), "cropped pf=%d alpha at (%d,%d) is %u", pf, x, y, px[tjAlphaOffset[pf]]); }
+        }
+      }
+      tj3Destroy(hd); free(buf);
+    }
+    free(cref);
+  }
   if (bad) printf("O fail pfeq %s\n", why); else printf("O ok\n");
   tj3Free(ref); free(pic); free(refdec);
   return 1;
